@@ -265,6 +265,41 @@ def run(ctx: Ctx):
                                  f"Peer.connection keeps the first one, and when that closes the peer "
                                  f"counts as disconnected (application not ready, peer dialled again) "
                                  f"although the second connection lives")
+    # the peer/readiness record is written from several threads: under a common lock?
+    ctx.rule("C13-R10", "Peer.connection and Application.is_ready are written under a common lock "
+                        "by the reader threads (handshake completion) and the node thread (removal)",
+             floor=2)
+    from .c14 import _contexts
+    from ..effects import fault_effects_of
+    from ..lockset import held_locks
+    cx = _contexts(model, fault_effects_of(model))
+    for what, pred in (("Peer.connection", lambda n: isinstance(n, ast.Assign) and any(
+            isinstance(t, ast.Attribute) and t.attr == "connection" for t in n.targets)),
+            ("Application.is_ready", lambda n: isinstance(n, ast.Call) and isinstance(n.func, ast.Attribute)
+             and n.func.attr in ("set", "clear") and A.dotted(n.func.value).endswith(".is_ready"))):
+        sites = []
+        for fn_ in nc.all_funcs:
+            for n in A.walk_no_nested(fn_.node):
+                if pred(n):
+                    sites.append((fn_, n))
+        ctxs = set()
+        for fn_, n in sites:
+            ctxs |= cx.get(id(fn_.node), {"api"})
+        common = None
+        for fn_, n in sites:
+            h = set(held_locks(fn_, n))
+            common = h if common is None else (common & h)
+        cons = f"{what}:unsynchronised-writers"
+        ctx.inst(cons, sample={"writers": sorted({f_.qualname for f_, _ in sites}),
+                               "thread_contexts": sorted(ctxs), "common_lock": sorted(common or [])})
+        if len(ctxs - {"api"}) > 1 and not common:
+            ctx.fail(cons, sites[0][0].loc(sites[0][1]), f"{what} is written by "
+                     f"{sorted({f_.qualname for f_, _ in sites})} in the thread contexts {sorted(ctxs)} "
+                     f"without a common lock: a CER/CEA being completed on a connection's reader thread "
+                     f"while the node thread removes that connection leaves the closed connection as the "
+                     f"peer's (ready) connection, and a readiness recomputation racing with a handshake "
+                     f"completion clears is_ready although a peer is ready - at the next quiescent point "
+                     f"the tables are inconsistent and stay so")
     from .common_node import connect_failure_closes
     connect_failure_closes(ctx, "C13-R7")
     from .common_node import ready_state_stores
